@@ -147,12 +147,127 @@ RearrFamily(z) ==
     : s \in RShapes}
   \cup {Cfg("linspace", "func", <<>>, <<>>, <<>>, n, NoAx, FALSE, k, 0, <<>>, "-", "rr", "array", NA) : n \in {0, 1}, k \in {1, 4, 5}}
 
+
+\* ---------------------------------------------------------------- joins: several operands, some of them the differentiated value
+\* ia = number of operands, ib = bitmask of the positions that hold the differentiated array (others are constants of the same shape)
+JShapes == {<<3>>, <<2, 3>>, <<1, 3>>} \cup (IF MaxRank >= 3 THEN {<<2, 3, 2>>} ELSE {})
+J1(prim, s, ax, n, mask, st) == Cfg(prim, "func", s, <<>>, <<>>, 0, ax, FALSE, n, mask, <<>>, st, "rr", "array", NA)
+Masks(n) == 1..(IF n = 1 THEN 1 ELSE IF n = 2 THEN 3 ELSE 7)
+JoinFamily(z) ==
+  UNION {
+    {J1("concatenate", s, AxInt(a), n, m, st) : a \in AxisInts(Len(s)), n \in 1..3, m \in Masks(3), st \in {"list", "tuple"}}
+    \cup {J1("concatenate", s, NoAx, n, m, "list") : n \in 2..3, m \in Masks(3)}
+    \cup {J1("stack", s, AxInt(a), n, m, "list") : a \in (-Len(s) - 1)..Len(s), n \in 1..3, m \in Masks(3)}
+    \cup {J1(p, s, NoAx, n, m, st) : p \in {"vstack", "hstack", "column_stack", "row_stack"}, n \in 1..3, m \in Masks(3), st \in {"list", "tuple"}}
+    \cup {J1("append", s, ax, 2, m, "-") : ax \in {NoAx} \cup {AxInt(a) : a \in AxisInts(Len(s))}, m \in 1..3}
+    \cup {J1("array", s, NoAx, n, m, st) : n \in 1..3, m \in Masks(3), st \in {"list", "nested", "ndmin", "bare"}}
+    \cup {J1(p, s, NoAx, n, m, "-") : p \in {"r_", "c_"}, n \in 1..3, m \in Masks(3)}
+    \cup {J1("select", s, NoAx, 2, m, "-") : m \in 1..7}
+    : s \in JShapes}
+  \cup {J1("array", <<>>, NoAx, n, m, "scalars") : n \in 1..3, m \in Masks(3)}
+  \cup {J1("r_", <<>>, NoAx, n, m, "-") : n \in 2..3, m \in Masks(3)}
+
+\* ---------------------------------------------------------------- contractions
+CShapes == {<<>>, <<3>>, <<2>>, <<2, 3>>, <<3, 2>>, <<1, 3>>, <<3, 3>>} \cup (IF MaxRank >= 3 THEN {<<2, 2, 3>>, <<2, 3, 2>>, <<3, 2, 3>>, <<1, 3, 2>>} ELSE {})
+K1(prim, form, a, b, n, ia, tp, st, k) == Cfg(prim, form, a, b, <<>>, n, NoAx, FALSE, ia, 0, tp, st, k, "array", NA)
+ContractFamily(z) ==
+  {K1(p, "func", a, b, n, 0, <<>>, "-", k) : p \in {"dot", "matmul", "inner", "outer", "kron"}, a \in CShapes, b \in CShapes, n \in {0, 1}, k \in Kinds}
+  \cup {K1("matmul", "op", a, b, n, 0, <<>>, "-", "rr") : a \in CShapes, b \in CShapes, n \in {0, 1}}
+  \cup {K1("dot", "method", a, b, 0, 0, <<>>, "-", "rr") : a \in CShapes \ {<<>>}, b \in CShapes}
+  \cup {K1("tensordot", "func", a, b, n, i, <<>>, "int", k) : a \in CShapes, b \in CShapes, n \in {0, 1}, i \in 0..2, k \in Kinds}
+  \cup {K1("tensordot", "func", a, b, n, 0, t, "pairs", "rr") : a \in CShapes, b \in CShapes, n \in {0, 1},
+           t \in {<<0, 0>>, <<-1, 0>>, <<1, -1>>, <<0, 1, 0, 1>>, <<1, 0, 0, 1>>, <<-1, -2, 1, 0>>, <<0, -1, -1, 0>>}}
+  \cup {K1("tensordot", "func", a, b, n, 0, t, "intpair", "rr") : a \in CShapes, b \in CShapes, n \in {0, 1}, t \in {<<0, 0>>, <<-1, -1>>, <<-1, 0>>}}
+  \cup {K1("cross", "func", a, b, n, 0, t, st, "rr") : a \in {<<3>>, <<2>>, <<2, 3>>, <<1, 3>>, <<3, 2>>, <<3, 3>>}, b \in {<<3>>, <<2>>, <<2, 3>>, <<1, 3>>, <<3, 2>>, <<3, 3>>},
+           n \in {0, 1}, t \in {<<>>}, st \in {"-", "axis0", "axis-1", "axisa0"}}
+  \cup {K1("einsum", f, e[2], e[3], n, 0, <<>>, e[1], "rr") : f \in {"func", "list"}, n \in {0, 1},
+           e \in {<<"ij,jk->ik", <<2, 3>>, <<3, 2>> >>, <<"ij,jk", <<2, 3>>, <<3, 2>> >>, <<"ij,ij->", <<2, 3>>, <<2, 3>> >>, <<"i,i", <<3>>, <<3>> >>,
+                  <<"ij,j", <<2, 3>>, <<3>> >>, <<"i,j->ij", <<3>>, <<2>> >>, <<"ijk,k->ij", <<2, 3, 2>>, <<2>> >>, <<"ij,kj->ik", <<1, 3>>, <<2, 3>> >>,
+                  <<"...ij,...jk->...ik", <<2, 2, 3>>, <<3, 2>> >>, <<"...ij,...jk->...ik", <<2, 3>>, <<2, 3, 2>> >>, <<"i...,i->...", <<3, 2>>, <<3>> >>,
+                  <<"...,...->...", <<2, 3>>, <<3>> >>, <<"i...j,j->i...", <<2, 3, 2>>, <<2>> >>, <<"ij,ji->", <<2, 3>>, <<3, 2>> >>,
+                  <<"i...j,...j->i...", <<2, 3, 2>>, <<2>> >>, <<"ij...,j->i...", <<2, 3, 2>>, <<3>> >>, <<"ij...,j...->i...", <<2, 3>>, <<3, 2>> >>}}
+  \cup {K1("einsum", "func", e[2], <<>>, 0, 0, <<>>, e[1], "rr") :
+           e \in {<<"ii->i", <<3, 3>> >>, <<"ii", <<3, 3>> >>, <<"ij->j", <<2, 3>> >>, <<"ij->", <<2, 3>> >>, <<"ij->ji", <<2, 3>> >>, <<"i...->...", <<3, 2>> >>, <<"...i->i...", <<2, 3>> >>}}
+
+
+\* ---------------------------------------------------------------- index expressions  x[idx]  (C11)
+\* An index is a sequence of items (st = "tuple": passed as a tuple; "bare": the single item itself; "list": a top-level Python list).
+\* Items: [t |-> "int", v], [t |-> "slice", v |-> <<start, stop, step>>] with 9 = None, [t |-> "ell"], [t |-> "new"],
+\*        [t |-> "arr", v |-> <<i, ...>>] integer ndarray, [t |-> "list", v |-> <<i, ...>>] Python list, [t |-> "arr2", v] 2 x 2 integer ndarray (flattened),
+\*        [t |-> "mask", v |-> <<0/1 ...>>] boolean ndarray over one axis, [t |-> "maskfull"] boolean array of the full shape
+\* Entries are valid for a dimension of size >= 3 (the indexed shapes use sizes 3 and 4); NumPy decides what it accepts.
+IShapes == {<<4>>, <<3, 4>>} \cup (IF MaxRank >= 3 THEN {<<3, 3, 4>>} ELSE {})
+IInt == {[t |-> "int", v |-> v] : v \in {0, -1, 2}}
+ISlice == {[t |-> "slice", v |-> v] : v \in {<<9, 9, 9>>, <<1, 9, 9>>, <<9, 9, -1>>, <<9, 9, 2>>, <<-3, -1, 9>>, <<2, 0, -1>>, <<0, 3, 2>>}}
+IArr == {[t |-> k, v |-> v] : k \in {"arr", "list"}, v \in {<<0, 0, 1>>, <<2, 0>>, <<-1, 1, -1>>, <<1>>}}
+IArr2 == {[t |-> "arr2", v |-> <<0, 1, 1, 0>>], [t |-> "arr2", v |-> <<2, 2, 0, -1>>]}
+IMask == {[t |-> "mask", v |-> <<1, 0, 1>>], [t |-> "mask", v |-> <<0, 1, 1>>]}
+IOther == {[t |-> "ell"], [t |-> "new"]}
+IItems == IInt \cup ISlice \cup IArr \cup IArr2 \cup IMask \cup IOther
+I1(s, items, st) == Cfg("getitem", "op", s, <<>>, <<>>, 0, NoAx, FALSE, 0, 0, items, st, "rr", "array", NA)
+Consumes(it) == IF it.t \in {"ell", "new"} THEN 0 ELSE 1
+RECURSIVE SumConsumes(_, _)
+SumConsumes(items, i) == IF i > Len(items) THEN 0 ELSE Consumes(items[i]) + SumConsumes(items, i + 1)
+IndexFamily(z) ==
+  UNION {
+    {I1(s, <<a>>, st) : a \in IItems, st \in {"tuple", "bare"}}
+    \cup {I1(s, <<a, b>>, "tuple") : a \in IItems, b \in IItems}
+    \cup (IF Len(s) >= 2 THEN {I1(s, <<a, b, c>>, "tuple") : a \in IInt \cup {[t |-> "slice", v |-> <<9, 9, 9>>], [t |-> "ell"], [t |-> "list", v |-> <<0, 0, 1>>], [t |-> "arr", v |-> <<2, 0>>]},
+                                                              b \in IItems, c \in IInt \cup {[t |-> "slice", v |-> <<9, 9, 2>>], [t |-> "new"], [t |-> "list", v |-> <<2, 0>>], [t |-> "arr", v |-> <<0, 0, 1>>], [t |-> "mask", v |-> <<1, 0, 1>>]}}
+          ELSE {})
+    \cup {I1(s, <<[t |-> "list", v |-> v]>>, "list") : v \in {<<0, 0, 1>>, <<2, 0>>, <<-1, 1, -1>>}}
+    \cup {I1(s, <<[t |-> "maskfull"]>>, "bare"), I1(s, <<>>, "tuple")}
+    : s \in IShapes}
+
+
+\* ---------------------------------------------------------------- linalg
+\* s = batch shape, ia = n (rows), ib = m (columns, 0 = square), st = variant, tp = extra ints, argnum as usual
+L1(prim, batch, n, m, argnum, st, tp, k) == Cfg(prim, "func", batch, <<>>, <<>>, argnum, NoAx, FALSE, n, m, tp, st, k, "array", NA)
+Batches == {<<>>, <<2>>} \cup (IF MaxRank >= 3 THEN {<<2, 1>>} ELSE {})
+LinalgFamily(z) ==
+  {L1(p, b, n, 0, 0, "-", <<>>, k) : p \in {"det", "slogdet", "inv", "pinv"}, b \in Batches, n \in 1..3, k \in Kinds \cap {"rr", "cc"}}
+  \cup {L1("pinv", b, q[1], q[2], 0, "-", <<>>, "rr") : b \in Batches, q \in {<<2, 3>>, <<3, 2>>}}
+  \cup {L1("solve", b, n, 0, a, st, <<>>, k) : b \in Batches, n \in 1..3, a \in {0, 1}, st \in {"vec", "mat"}, k \in Kinds \cap {"rr", "cc"}}
+  \cup {L1("cholesky", b, n, 0, 0, "-", <<>>, "rr") : b \in Batches, n \in 1..3}
+  \cup {L1("eigh", b, n, 0, 0, st, <<o>>, "rr") : b \in Batches, n \in 1..3, st \in {"L", "U", "default"}, o \in {0, 1}}
+  \cup {L1("eig", b, n, 0, 0, "-", <<o>>, "rr") : b \in Batches, n \in 1..3, o \in {0, 1}}
+  \cup {L1("svd", b, n, m, 0, st, <<o>>, "rr") : b \in Batches, n \in 2..3, m \in 2..3, st \in {"s_only", "thin", "full"}, o \in 0..2}
+  \cup {Cfg("norm", "func", sh, <<>>, <<>>, 0, ax, kd, 0, 0, <<>>, o, k, "array", NA) :
+          sh \in {<<3>>, <<2, 3>>, <<3, 3>>} \cup (IF MaxRank >= 3 THEN {<<2, 3, 2>>} ELSE {}),
+          ax \in UNION {{a \in AxisChoices(r) : a.k # "tuple" \/ Len(a.t) = 2} : r \in 1..3}, kd \in BOOLEAN,
+          o \in {"none", "2", "3", "1", "inf", "-inf", "fro", "nuc", "0.5"}, k \in Kinds \cap {"rr", "cc"}}
+
+\* ---------------------------------------------------------------- fft
+\* ia = n (0 = None) for the 1-D transforms; tp = s argument (<<>> = None) and st2 in s3 field = axes for the n-D transforms; st = norm
+F1(prim, sh, ax, n, sarg, axes, norm, k) == Cfg(prim, "func", sh, <<>>, axes, 0, ax, FALSE, n, 0, sarg, norm, k, "array", NA)
+FNorms == {"none", "ortho", "forward", "backward"}
+FShapes == {<<4>>, <<3>>, <<2, 4>>, <<4, 2>>, <<6, 1>>} \cup (IF MaxRank >= 3 THEN {<<4, 2, 4>>} ELSE {})
+FftFamily(z) ==
+  UNION {
+    {F1(p, sh, AxInt(a), n, <<>>, <<>>, nm, k) : p \in {"fft", "ifft"}, a \in AxisInts(Len(sh)), n \in {0, 2, 4, 6}, nm \in FNorms, k \in Kinds \cap {"rr", "cc"}}
+    \cup {F1("rfft", sh, AxInt(a), n, <<>>, <<>>, nm, "rr") : a \in AxisInts(Len(sh)), n \in {0, 2, 4, 6}, nm \in FNorms}
+    \cup {F1("irfft", sh, AxInt(a), n, <<>>, <<>>, nm, "cc") : a \in AxisInts(Len(sh)), n \in {0, 2, 4, 6}, nm \in FNorms}
+    \cup (IF Len(sh) >= 2 THEN
+           {F1(p, sh, NoAx, 0, sa, axes, nm, k) : p \in {"fft2", "ifft2", "fftn", "ifftn"}, sa \in {<<>>, <<2, 4>>, <<4, 2>>},
+                axes \in {<<>>, <<0, 1>>, <<-2, -1>>, <<1, 0>>, <<0, 0>>, <<-1, -1>>}, nm \in FNorms, k \in Kinds \cap {"rr", "cc"}}
+           \cup {F1(p, sh, NoAx, 0, sa, axes, nm, "rr") : p \in {"rfft2", "rfftn"}, sa \in {<<>>, <<2, 4>>, <<4, 2>>},
+                axes \in {<<>>, <<0, 1>>, <<-2, -1>>, <<1, 0>>, <<0, 0>>}, nm \in FNorms}
+           \cup {F1(p, sh, NoAx, 0, sa, axes, nm, "cc") : p \in {"irfft2", "irfftn"}, sa \in {<<>>, <<2, 4>>, <<4, 2>>},
+                axes \in {<<>>, <<0, 1>>, <<-2, -1>>, <<1, 0>>}, nm \in FNorms}
+         ELSE {})
+    : sh \in FShapes}
+
 Space == CASE Family = "binary" -> BinaryFamily(0)
            [] Family = "where" -> WhereFamily(0)
            [] Family = "reduce" -> ReduceFamily(0)
            [] Family = "cum" -> CumFamily(0)
            [] Family = "unary" -> UnaryFamily(0)
            [] Family = "rearr" -> RearrFamily(0)
+           [] Family = "join" -> JoinFamily(0)
+           [] Family = "linalg" -> LinalgFamily(0)
+           [] Family = "fft" -> FftFamily(0)
+           [] Family = "index" -> {c \in IndexFamily(0) : SumConsumes(c.tp, 1) <= Len(c.s) /\ Cardinality({i \in DOMAIN c.tp : c.tp[i].t = "ell"}) <= 1}
+           [] Family = "contract" -> ContractFamily(0)
 
 VARIABLES cfg, emitted
 Init == cfg \in Space /\ emitted = FALSE
